@@ -5,6 +5,8 @@ package rules
 import (
 	"sort"
 
+	"golang.org/x/tools/go/ssa"
+
 	"verifchecker/internal/engine"
 	"verifchecker/internal/report"
 )
@@ -17,7 +19,9 @@ type Ctx struct {
 	// VerifDir is /verif (fixtures, mutants).
 	VerifDir string
 
-	sql *sqlResult
+	sql       *sqlResult
+	prodFuncs []*ssa.Function
+	allRepr   []*ssa.Function
 }
 
 type PropFunc func(c *Ctx)
